@@ -2,7 +2,7 @@ SPECIFICATION Spec
 VIEW StateView
 CHECK_DEADLOCK FALSE
 CONSTANTS
-  Paths <- MCPaths
+  Paths <- MCPathsQ
   Names = {"a", "b"}
   MaxDepth = 2
   NLower = 1
@@ -10,5 +10,5 @@ CONSTANTS
   HasUpper = TRUE
   Known = {}
   UpperTypes = {"none", "file", "dir", "wh"}
-  LowerTypes = {"none", "file", "dir"}
+  LowerTypes = {"none", "file", "dir", "odir"}
 INVARIANTS LoadAgrees LiveIsView StatusAgrees RestartSame LowersFrozen
